@@ -249,9 +249,17 @@ var partialProof = &core.Check{Name: "c18/partial", Quick: 400, Thorough: 60000,
 	}
 
 	// the second proof: prune nothing, prune elsewhere (old pruned branches survive), or prune anywhere
+	readHow := readTree(c, "read", body)
+	if readHow != "tree not read" {
+		if c.Bool("read.reset") {
+			body.ResetCounters()
+			readHow += ", root reset"
+		}
+		c.Class("partial tree read before the prover is made")
+	}
 	prover, err := boc.NewMerkleProver(body)
 	if err != nil {
-		return fmt.Errorf("NewMerkleProver on a partial tree (pruned branches at %v): %v", sortedKeys(old), err)
+		return fmt.Errorf("NewMerkleProver on a partial tree (pruned branches at %v; %s): %v", sortedKeys(old), readHow, err)
 	}
 	cur := prover.Cursor()
 	fresh := map[string]bool{}
@@ -284,7 +292,7 @@ var partialProof = &core.Check{Name: "c18/partial", Quick: 400, Thorough: 60000,
 	if err != nil {
 		return fmt.Errorf("CreateProof on a partial tree (pruned branches at %v, now pruning %v): %v", sortedKeys(old), sortedKeys(fresh), err)
 	}
-	describe := fmt.Sprintf("partial tree with pruned branches at %v (level-0 depth %d, depth as it is %d), now pruning %v", sortedKeys(old), fullDepth, partial.Depth(3), sortedKeys(fresh))
+	describe := fmt.Sprintf("partial tree with pruned branches at %v (level-0 depth %d, depth as it is %d; %s), now pruning %v", sortedKeys(old), fullDepth, partial.Depth(3), readHow, sortedKeys(fresh))
 	c.Note("case", describe)
 
 	// header, level-0 hash of the body, every pruned branch, declared level masks, tongo's own reading
